@@ -127,13 +127,13 @@ def _laws(P, u, g, wf, ty, deleg, prop):
                     % (t, t, t, c("p", "q"), c("q", "r"), c("q", "r"), c("p", "r"), c("p", "q")))
     def req(hs):
         return ("requires " + ",\n        ".join(hs)) if hs else ""
-    u.verus_items.append("proof fn law_refl%s(x: %s) %s\n    %s\n    ensures ord_oracle(&x, &x) == Ordering::Equal {}\n" % (g, ty, wf, req(h_refl)))
-    u.verus_items.append("proof fn law_antisym%s(x: %s, y: %s) %s\n    %s\n    ensures ord_oracle(&x, &y) == ord_rev(ord_oracle(&y, &x)) {}\n"
+    u.verus_items.append("proof fn law_ord_refl%s(x: %s) %s\n    %s\n    ensures ord_oracle(&x, &x) == Ordering::Equal {}\n" % (g, ty, wf, req(h_refl)))
+    u.verus_items.append("proof fn law_ord_antisym%s(x: %s, y: %s) %s\n    %s\n    ensures ord_oracle(&x, &y) == ord_rev(ord_oracle(&y, &x)) {}\n"
                          % (g, ty, ty, wf, req(h_anti)))
-    u.verus_items.append("proof fn law_trans%s(x: %s, y: %s, z: %s) %s\n    %s\n    ensures ord_oracle(&x, &y) == Ordering::Less && ord_oracle(&y, &z) == Ordering::Less ==> ord_oracle(&x, &z) == Ordering::Less {}\n"
+    u.verus_items.append("proof fn law_ord_trans%s(x: %s, y: %s, z: %s) %s\n    %s\n    ensures ord_oracle(&x, &y) == Ordering::Less && ord_oracle(&y, &z) == Ordering::Less ==> ord_oracle(&x, &z) == Ordering::Less {}\n"
                          % (g, ty, ty, ty, wf, req(h_tr)))
     for k in ("refl", "antisym", "trans"):
-        u.verus_obls["law_%s" % k] = ("%s/%s/laws/%s" % (prop, P.pid, k), "lemma: ord_oracle is %s given lawful field comparisons" % k)
+        u.verus_obls["law_ord_%s" % k] = ("%s/%s/laws/ord_%s" % (prop, P.pid, k), "lemma: ord_oracle is %s given lawful field comparisons" % k)
 
 
 # ---------------------------------------------------------------------------------
